@@ -454,45 +454,124 @@ func ruleR033(c *Ctx) {
 	key := "parser2.Parser.parseUnary"
 	g := c.CFG(fd)
 	env := &symEnv{info: info, vals: map[string]lin{}}
+	nextCall := LookupMethod(root, "Parser", "nextParserCall")
 	nOp := 0
+	// guards at a call, in normal form d < 0
+	guardOpPos := func(call ast.Node, posSym string) (nonNeg, bounded bool) {
+		for _, gd := range g.Guards(call) {
+			d, ok := condNormal(env, gd.Cond)
+			if !ok {
+				continue
+			}
+			// opPos >= 0  <=>  -opPos-1 < 0
+			if gd.Val && d.eq(symVar(posSym).neg().sub(linConst(1))) {
+				nonNeg = true
+			}
+			if !gd.Val && d.eq(symVar(posSym)) {
+				nonNeg = true
+			}
+			// opPos+1 < len(operators)
+			for k := range d.terms {
+				if strings.HasPrefix(k, "len:") && strings.Contains(k, "operators") && gd.Val && d.eq(symVar(posSym).add(linConst(1)).sub(symVar(k))) {
+					bounded = true
+				}
+			}
+		}
+		return
+	}
+	opPosSym := func(l lin) string {
+		for k := range l.terms {
+			if strings.Contains(k, ".opPos@") {
+				return k
+			}
+		}
+		return ""
+	}
 	ast.Inspect(fd.Body, func(n ast.Node) bool {
 		call, ok := n.(*ast.CallExpr)
-		if !ok || !isCallTo(info, call, parseOp) || len(call.Args) != 3 {
+		if !ok {
+			return true
+		}
+		// (a) the level above opPos through nextParserCall(opPos), which R03.1 shows to be parseOp(opPos+1) below the
+		// end of the table and parseUnary behind it
+		if inner, ok := ast.Unparen(call.Fun).(*ast.CallExpr); ok && nextCall != nil && isCallTo(info, inner, nextCall) && len(inner.Args) == 1 {
+			nOp++
+			arg := env.eval(inner.Args[0])
+			posSym := opPosSym(arg)
+			if posSym == "" || !arg.eq(symVar(posSym)) {
+				c.Violation(key+"#operand-level", call.Pos(), "the operand of a prefix operator that is also binary is parsed at the level above %s instead of the level above opPos: it no longer extends exactly over the operators of strictly higher priority", symStr(arg))
+				return true
+			}
+			nonNeg, _ := guardOpPos(call, posSym)
+			c.Check(nonNeg, key+"#operand-level", call.Pos(), "a prefix operator that is also binary parses its operand at the level above its own (nextParserCall(opPos)), under opPos >= 0", "nextParserCall(opPos) is not guarded by opPos >= 0: a pure prefix operator (opPos = -1) would parse a whole expression as its operand")
+			return true
+		}
+		// (b) directly by parseOp(opPos+1): needs the bounds test nextParserCall has
+		if !isCallTo(info, call, parseOp) || len(call.Args) != 3 {
 			return true
 		}
 		nOp++
 		arg := env.eval(call.Args[1])
-		// find the opPos symbol
-		var posSym string
-		for k := range arg.terms {
-			if strings.Contains(k, ".opPos@") {
-				posSym = k
-			}
-		}
+		posSym := opPosSym(arg)
 		if posSym == "" || !arg.eq(symVar(posSym).add(linConst(1))) {
 			c.Violation(key+"#operand-level", call.Pos(), "the operand of a prefix operator that is also binary is parsed by parseOp(%s) instead of parseOp(opPos+1): it no longer extends exactly over the operators of strictly higher priority", symStr(arg))
 			return true
 		}
-		// guarded by opPos >= 0
-		guarded := false
-		for _, gd := range g.Guards(call) {
-			if d, ok := condNormal(env, gd.Cond); ok {
-				// opPos >= 0  <=>  -opPos-1 < 0 ; opPos > -1 <=> -1-opPos < 0
-				want := symVar(posSym).neg().sub(linConst(1))
-				if gd.Val && d.eq(want) {
-					guarded = true
-				}
-				// negative form: opPos < 0 false
-				if !gd.Val && d.eq(symVar(posSym)) {
-					guarded = true
-				}
-			}
+		nonNeg, bounded := guardOpPos(call, posSym)
+		switch {
+		case !nonNeg:
+			c.Violation(key+"#operand-level", call.Pos(), "parseOp(opPos+1) is not guarded by opPos >= 0: a pure prefix operator (opPos = -1) would parse a whole expression as its operand")
+		case !bounded:
+			c.Violation(key+"#operand-level", call.Pos(), "parseOp(opPos+1) is called without the test opPos+1 < len(operators): a prefix operator that is also the binary operator of the highest priority indexes the operator table out of range (Go panic while parsing, e.g. Op(\"+\",\"-\").Unary(\"-\") on -a)")
+		default:
+			c.OK(key+"#operand-level", call.Pos(), "a prefix operator that is also binary parses its operand with parseOp(opPos+1), under 0 <= opPos and opPos+1 < len(operators)")
 		}
-		c.Check(guarded, key+"#operand-level", call.Pos(), "a prefix operator that is also binary parses its operand with parseOp(opPos+1), under opPos >= 0", "parseOp(opPos+1) is not guarded by opPos >= 0: a pure prefix operator (opPos = -1) would parse a whole expression as its operand")
 		return true
 	})
 	if nOp == 0 {
-		c.Violation(key+"#operand-level", fd.Pos(), "parseUnary never parses the operand with parseOp(opPos+1): prefix operators that are also binary bind like pure prefix operators")
+		c.Violation(key+"#operand-level", fd.Pos(), "parseUnary never parses the operand at the level above opPos: prefix operators that are also binary bind like pure prefix operators")
+	}
+	// the entry level: parseOp(0) needs a non empty table
+	if pe := c.FuncDecl(root, "Parser", "parseExpression"); pe != nil {
+		ekey := "parser2.Parser.parseExpression#entry-level"
+		ge := c.CFG(pe)
+		done := false
+		ast.Inspect(pe.Body, func(n ast.Node) bool {
+			call, ok := n.(*ast.CallExpr)
+			if !ok || done {
+				return true
+			}
+			if inner, ok := ast.Unparen(call.Fun).(*ast.CallExpr); ok && nextCall != nil && isCallTo(info, inner, nextCall) && len(inner.Args) == 1 {
+				done = true
+				lv := env.eval(inner.Args[0])
+				c.Check(lv.eq(linConst(-1)), ekey, call.Pos(), "an expression starts at the level above -1, i.e. at the first operator or, without operators, at the unary level", "an expression starts at the level above "+symStr(lv)+" instead of the first operator level: operators of lower priority are never parsed")
+				return true
+			}
+			if isCallTo(info, call, parseOp) && len(call.Args) == 3 {
+				done = true
+				lv := env.eval(call.Args[1])
+				if !lv.eq(linConst(0)) {
+					c.Violation(ekey, call.Pos(), "an expression starts at operator level %s instead of 0", symStr(lv))
+					return true
+				}
+				nonEmpty := false
+				for _, gd := range ge.Guards(call) {
+					if d, ok := condNormal(env, gd.Cond); ok && gd.Val {
+						for k := range d.terms {
+							// 0 < len  <=> -len < 0
+							if strings.HasPrefix(k, "len:") && strings.Contains(k, "operators") && d.eq(symVar(k).neg()) {
+								nonEmpty = true
+							}
+						}
+					}
+				}
+				c.Check(nonEmpty, ekey, call.Pos(), "parseOp(0) under len(operators) > 0", "parseOp(0) is called without a test that there is an operator at all: a parser without binary operators indexes the empty operator table (Go panic on every input)")
+			}
+			return true
+		})
+		if !done {
+			c.Undecided(ekey, pe.Pos(), "the entry into the operator levels was not found")
+		}
 	}
 	// the other branch: parseNonOperator
 	nNon := 0
